@@ -130,6 +130,9 @@ import BGV
 #print axioms BGV.C07_subLoop_oor_head
 #print axioms BGV.C07_rejected_unchanged
 #print axioms BGV.C07_history
+#print axioms BGV.C07_search_source_oor
+#print axioms BGV.C07_geodesics_oor
+#print axioms BGV.C07_dijkstra_oor
 
 -- C08
 #print axioms BGV.C08_vertices
